@@ -146,6 +146,9 @@ var c17Fragments = []string{
 	"{% block b1 %}{{ v|sf1 }}{% endblock %}",
 	"{% include 'inc' with {'w': sg1(7)} %}", "{% include 'inc' ignore missing %}", "{% include 'inc' only %}", "{% include 'inc' with {'w': v|sf2} only %}", "{% include 'in' ~ sg1('c') %}",
 	"{{ mm(sg1(1)) }}", "{{ mm() }}", "{{ mm(1, sg2(2)) }}",
+	// macro calls whose body can fail, consumed by something other than a bare print tag
+	"{{ mm(1)|raw }}", "{{ mm(v)|sf2 }}", "{% set mq = mm(2) %}{{ mq }}", "{% import 'lib' as L2 %}{{ L2.lm(v)|raw }}", "{% from 'lib' import lm as lm3 %}{{ lm3(1)|raw }}{% set ml = lm3(2) %}{{ ml }}",
+	"{% for i in [1, 2] %}{{ mm(i)|raw }}{% endfor %}", "{{ _self.mm(3)|raw }}", "{% apply sf2 %}{{ mm(4) }}{% endapply %}", "{% if mm(5) %}t{% endif %}", "{{ [mm(6)]|length }}",
 	"{% import 'lib' as L %}{{ L.lm(v) }}", "{% from 'lib' import lm as lm2 %}{{ lm2(sg1(3)) }}",
 	"{{ [sg1(1), 2]|length }}", "{{ {'k': sg1(2)}|length }}", "{{ yes ? sg1(3) : sg2(4) }}", "{{ no ? sg1(3) : sg2(4) }}",
 	"{% if v is st1 %}t{% endif %}", "{% if (v|sf1) is defined %}d{% endif %}", "{% if sg1(m).k is defined %}d{% endif %}", "{% if v is not st1 %}t{% endif %}",
